@@ -70,6 +70,11 @@ Step ==
             [] t.ev = "InCall" -> /\ fate' = [fate EXCEPT ![t.id] = "inflight"]
                                   /\ meta' = [meta EXCEPT ![t.id] = [topic |-> t.topic, part |-> t.part, off |-> t.off, epoch |-> t.epoch]]
                                   /\ UNCHANGED <<committed, committing, out>>
+            \* the input is told to commit something that is not a record it handed over (e.g. a child of a split record, carrying
+            \* the record's source id and offset): whatever it marks, the record itself is not finished by that
+            [] t.ev \in {"CommitCall", "Commit"} /\ t.id \notin Ids ->
+                 /\ out' = out \cup {[run |-> t.run, n |-> t.n, v |-> [kind |-> "commit_for_non_record", id |-> t.id, other |-> 0, info |-> ""]]}
+                 /\ UNCHANGED <<fate, meta, committed, committing>>
             [] t.ev = "CommitCall" -> /\ committing' = committing \cup {t.id} /\ UNCHANGED <<fate, meta, committed, out>>
             [] t.ev = "InRet" -> /\ fate' = [fate EXCEPT ![t.id] = IF t.ok THEN @ ELSE "refused"]
                                  /\ UNCHANGED <<meta, committed, committing, out>>
